@@ -318,6 +318,30 @@ static MSet shrink(const MSet& s0, const std::string& sig) {
   return s;
 }
 
+
+// Which rules are reported as matching does not depend on SCAN_FLAGS_FAST_MODE (it only limits how many matches of a
+// string are collected): a fixed set of rules over string kinds with their own verification paths - chained hex
+// strings whose first head fragment is a false start, regexps, xor, wide, fullword - scanned with and without it.
+static Check fast_mode_equivalence(bool replay_only = false) {
+  Check c; (void) replay_only;
+  const char* SRC =
+    "rule fm_chain { strings: $a = { AA BB CC DD [300-400] EE FF 99 88 } condition: $a }\n"
+    "rule fm_chain3 { strings: $a = { A1 B2 C3 D4 [300-400] E5 F6 97 86 [250-350] 15 26 37 48 } condition: $a }\n"
+    "global rule fm_gate { strings: $g = { 47 41 54 45 [210-260] 4F 50 45 4E } condition: $g }\n"
+    "rule fm_re { strings: $r = /lazy.{1,20}?end/ condition: $r }\nrule fm_xor { strings: $x = \"xorsecret\" xor(1-255) condition: $x }\n"
+    "rule fm_count { strings: $c = \"cnt!\" condition: #c >= 1 and $c at 0 }\nrule fm_fw { strings: $f = \"fullw\" fullword condition: $f }\n";
+  YR_RULES* r = compile_simple(SRC);
+  auto z = [](size_t n) { return std::string(n, '\0'); };
+  std::string buf = "cnt!.." + std::string("\xaa\xbb\xcc\xdd") + z(460) + "\xaa\xbb\xcc\xdd" + z(350) + "\xee\xff\x99\x88"       // false start, then the real chain
+    + "\xa1\xb2\xc3\xd4" + z(800) + "\xa1\xb2\xc3\xd4" + z(350) + "\xe5\xf6\x97\x86" + z(300) + "\x15\x26\x37\x48"
+    + "GATE" + z(600) + "GATE" + z(230) + "OPEN" + " lazy....end xfullwx fullw cnt! \x22\x35\x28\x29\x3f\x39\x28\x3f\x2e";
+  auto verdicts = [&](int flags) { Recorder rec; yr_rules_scan_mem(r, (const uint8_t*) buf.data(), buf.size(), flags, recorder_callback, &rec, 0); std::string v; for (auto& l : normalise(rec.text)) if (l.rfind("MATCH ", 0) == 0 || l.rfind("NOMATCH ", 0) == 0) v += l + "\n"; return v; };
+  std::string slow = verdicts(0), fast = verdicts(SCAN_FLAGS_FAST_MODE);
+  yr_rules_destroy(r);
+  if (slow != fast) { c.klass = "verdict-depends-on-fast-mode"; c.sig = "fast-mode|verdicts-differ"; c.detail = "without SCAN_FLAGS_FAST_MODE: " + slow + " with it: " + fast; }
+  return c;
+}
+
 int main(int argc, char** argv) {
   Args args(argc, argv);
   std::string cmd = args.pos.empty() ? "run" : args.pos[0];
@@ -326,6 +350,7 @@ int main(int argc, char** argv) {
   if (cmd == "replay") {
     J rp; if (args.pos.size() < 2 || !J::load(args.pos[1], rp)) return 2;
     const J& c = rp.has("replay") ? rp["replay"] : rp;
+    if (c["fast_mode"].truthy()) { Check fc = fast_mode_equivalence(); if (!fc.sig.empty()) emit_violation("C11", fc.klass, fc.sig, fc.detail, c); J done = J::obj(); done.set("t", "replayed"); emit_line(done); return 0; }
     if (c.has("set")) {
       MSet s = set_from(c["set"]);
       std::string err; YR_RULES* rules = compile_set(s, &err); if (!rules) { fprintf(stderr, "replay: set does not compile: %s\n", err.c_str()); return 2; }
@@ -346,6 +371,7 @@ int main(int argc, char** argv) {
   Shard sh = parse_shard(args);
   bool thorough = args.get("tier", "quick") == "thorough";
   uint64_t seed = args.num("seed", 1); int64_t from = args.num("from", 0);
+  if (sh.w == 0 && from == 0) { Check fc = fast_mode_equivalence(); st.runs += 2; st.c["fast_mode_equivalence_scans"] += 2; if (!fc.sig.empty()) { J rp = J::obj(); rp.set("engine", "sim_protocol"); rp.set("fast_mode", true); emit_violation("C11", fc.klass, fc.sig, fc.detail, rp); } }
   double budget = (double) args.num("budget", thorough ? 1200 : 60), t0 = now_s();
   int64_t nsets = args.num("sets", thorough ? 60000 : 1600);
   std::set<std::string> reported;
